@@ -556,6 +556,16 @@ def d6(cx: Cx, ob: Ob) -> None:
     want = [binds["prefix"], binds["namespace"], binds["pattern"]]
     if order != want:
         ob.violate(fn.qualname, fn.where, f"from_shacl selects {order} but unpacks rows as (prefix, uri_prefix, pattern) = {want}: the roles are permuted", detail="select-order")
+    mo = re.search(r"OPTIONAL\s*\{", q)
+    mp = re.search(r"sh:prefix", q)
+    if mo and mp and mo.start() < mp.start():
+        ob.violate(
+            fn.qualname,
+            fn.where,
+            "the OPTIONAL { ... sh:pattern ... } block is the FIRST clause of the WHERE group: it is left-joined against the empty solution, so as soon as one declaration has a pattern every declaration without one is dropped",
+            witness="a converter with one record with and one without a pattern: the latter does not read back",
+            detail="optional-first",
+        )
     if not re.search(r"OPTIONAL\s*\{[^}]*sh:pattern", q):
         ob.violate(fn.qualname, fn.where, "sh:pattern is not OPTIONAL in from_shacl's query: prefixes written without a pattern are not read back", detail="pattern-required")
     # record construction
@@ -647,3 +657,40 @@ def x13(cx: Cx, ob: Ob) -> None:
     from ..rules import no_fields_set_dependence
 
     no_fields_set_dependence(cx, ob)
+
+
+@obligation("C14-D8", "the extended prefix map writer writes the json.dumps(...) text itself: no transformation (Unicode normalisation, encoding round trips, replace / strip) between the dump and the file, ensure_ascii either way", floor=1)
+def d8(cx: Cx, ob: Ob) -> None:
+    w = cx.fn(f"{API}.write_extended_prefix_map", ob.id)
+    s = cx.summary(w, ob.id)
+    found = False
+    for c, ev, ctx in s.calls():
+        name = callee_name(c)
+        text = None
+        if name == "write_text" and c[2]:
+            text = c[2][0]
+        elif name == "write" and op(c[1]) == "attr" and c[2]:
+            text = c[2][0]
+        elif op(c[1]) == "ext" and c[1][1] == "json.dump":
+            found = True
+            ob.site(f"{where(w, ev.line)} {w.qualname}", "json.dump(obj, file)")
+            continue
+        if text is None:
+            continue
+        found = True
+        ob.site(f"{where(w, ev.line)} {w.qualname}", f"writes {show(text)[:60]}")
+        if op(text) == "call" and op(text[1]) == "ext" and text[1][1] == "json.dumps":
+            continue
+        wrappers = [x for x in subterms(text) if op(x) == "call" and any(op(y) == "call" and op(y[1]) == "ext" and y[1][1] == "json.dumps" for a in x[2] for y in subterms(a)) and not (op(x[1]) == "ext" and x[1][1] == "json.dumps")]
+        if wrappers:
+            ob.violate(
+                w.qualname,
+                where(w, ev.line),
+                f"the JSON text passes through `{show(wrappers[0][1])[:40]}` before it is written: prefixes and URI prefixes containing characters that transformation changes (non-NFC Unicode, ...) are not reproduced exactly",
+                witness="a prefix containing U+212B ANGSTROM SIGN reads back as U+00C5",
+                detail="text-transformed",
+            )
+        else:
+            ob.undecide(f"text written by write_extended_prefix_map (`{show(text)[:50]}`) not recognised as json.dumps(...)")
+    if not found:
+        ob.undecide("write_extended_prefix_map: no write of the JSON text found")
